@@ -116,6 +116,11 @@ impl Stats {
     pub fn class_count(&self, name: &str) -> u64 {
         *self.classes.lock().unwrap().get(name).unwrap_or(&0)
     }
+    /// Sum of the counts of `name` and of every class `name:<detail>`.
+    pub fn class_family_count(&self, name: &str) -> u64 {
+        let prefix = format!("{name}:");
+        self.classes.lock().unwrap().iter().filter(|(k, _)| *k == name || k.starts_with(&prefix)).map(|(_, v)| *v).sum()
+    }
     pub fn samples_json(&self) -> Vec<Value> {
         self.samples.lock().unwrap().clone()
     }
